@@ -28,8 +28,8 @@ P = {
  'C15': ("sum_base/sum_quote/sum_fee (rule R4 loops) against recursive sums, From<BidOrderV2> == conv_bid, migrate_bid_orders window clause with loop invariant, lemma_C15_remaining.",
          "That historic event logs describe consistent bids (legacy_bids_ok) is an assumption."),
  'C16': ("query takes immutable Deps (Rust typing); faithful / answers_when_present clauses; accessor contracts.", "to_binary is an injective uninterpreted serialisation."),
- 'C17': ("Attribute membership clauses on every handler tie reported action, ids, sizes, price, fees and order_open to the quantities of the ledger/state clauses.",
-         "The attribute-driven shadow book is argued in DESIGN.md from these clauses; it is not a machine-checked lemma."),
+ 'C17': ("Attribute membership clauses on every handler tie reported action, ids, sizes, price, fees and order_open to the quantities of the ledger/state clauses; lemma_C17_shadow (shadow book).",
+         "lemma_C17_shadow: a record updated from the reported attribute values alone equals the projection of the real book after every request."),
 }
 checks = []
 for pid in sorted(P):
